@@ -26,7 +26,7 @@ func init() {
 		Phases: func(tier string, seed int64) []Phase {
 			return []Phase{{Name: "pipelines", Run: c06Run}}
 		},
-		MinObserved: []string{"requests_numbered", "rendezvous_satisfied", "cross_connection_rendezvous_satisfied", "pipelines_with_starttls_upgrade", "pipelines_with_a_handler_blocked_in_write"},
+		MinObserved: []string{"requests_numbered", "rendezvous_satisfied", "cross_connection_rendezvous_satisfied", "pipelines_with_starttls_upgrade", "pipelines_with_a_handler_blocked_in_write", "requests_served_through_the_default_route"},
 	})
 }
 
@@ -87,7 +87,8 @@ func c06Pipeline(c *Ctx, r *Rand, idx int) {
 	}
 	conns := make([]*c06Conn, nconn)
 	kinds := []string{"bind", "search", "modify", "add", "delete", "ext", "ext-noroute"}
-	withDefault := r.Chance(30)
+	withDefault := r.Chance(40)
+	viaDefaultAdd, viaDefaultDelete := withDefault && r.Bool(), withDefault && r.Bool()
 	sizes := []int{1, 2, 3, 8, 17, 64, 128, 256}
 	for ci := range conns {
 		n := pick(r, sizes)
@@ -219,8 +220,14 @@ func c06Pipeline(c *Ctx, r *Rand, idx int) {
 		m.Bind(gen)
 		m.Search(gen)
 		m.Modify(gen)
-		m.Add(gen)
-		m.Delete(gen)
+		// with a default route, some operation kinds have no route of their own: their handlers (which park on
+		// rendezvous like any other) are reached through the DEFAULT route
+		if !viaDefaultAdd {
+			m.Add(gen)
+		}
+		if !viaDefaultDelete {
+			m.Delete(gen)
+		}
 		for ci, cn := range conns {
 			for name, q := range cn.byExt {
 				if q.Kind == "ext" {
@@ -230,9 +237,16 @@ func c06Pipeline(c *Ctx, r *Rand, idx int) {
 			}
 		}
 		if withDefault {
-			// default route: only unrouted extended requests end up here; identify them by arrival order is
-			// impossible, so they are matched by Request.ID-free means: one default-routed request per position
 			m.DefaultRoute(func(w *gldap.ResponseWriter, req *gldap.Request) {
+				o := observe("", req)
+				if o.Kinds > 0 {
+					if viaDefaultAdd || viaDefaultDelete {
+						c.Count("requests_served_through_the_default_route", 1)
+					}
+					gen(w, req)
+					return
+				}
+				// unrouted extended requests: answered at once (their identity is not observable)
 				w.Write(req.NewExtendedResponse(gldap.WithResponseCode(0)))
 			})
 		}
